@@ -26,6 +26,37 @@ def build_tools():
     return ninja, vcmd
 
 
+# ---- what the ninja process is doing, read from /proc (no timing assumptions) ----
+# ppoll, poll, pselect6, select; wait4, waitid (a build that was given up waits for the commands it does not kill) (x86-64)
+POLL_SYSCALLS = {"271", "7", "270", "23", "61", "247"}
+
+
+def live_children(pid):
+    """Direct children of pid that are not zombies; None when /proc does not say."""
+    try:
+        kids = open("/proc/%d/task/%d/children" % (pid, pid)).read().split()
+    except OSError:
+        return None
+    live = []
+    for k in kids:
+        try:
+            st = open("/proc/%s/stat" % k).read()
+            if st[st.rindex(")") + 2] != "Z":
+                live.append(int(k))
+        except (OSError, ValueError, IndexError):
+            pass
+    return live
+
+
+def blocked_in_poll(pid):
+    """True when the process sleeps in ppoll()/poll(); None when /proc does not say."""
+    try:
+        f = open("/proc/%d/syscall" % pid).read().split()
+    except OSError:
+        return None
+    return bool(f) and f[0] in POLL_SYSCALLS
+
+
 def sanitize(ident):
     return "".join(c if (c.isalnum() or c in "._-") else "_" for c in ident)
 
@@ -158,7 +189,7 @@ class Real:
         names.sort(key=lambda n: (os.stat(os.path.join(self.ctl, n)).st_mtime_ns, n))
         return [n[len("started."):] for n in names]
 
-    def run_ninja(self, op, choices, signal_at=None, sig=signal.SIGINT, env_extra=None, timeout=20.0):
+    def run_ninja(self, op, choices, signal_at=None, sig=signal.SIGINT, env_extra=None, timeout=90.0):
         """choices as in engine A: index among the running commands (start order); -1 = youngest.
         signal_at: (wait index) at which `sig` is sent to ninja instead of releasing a command."""
         for n in os.listdir(self.ctl):
@@ -177,21 +208,44 @@ class Real:
         deadline = time.time() + timeout
         obs = {"signalled": False}
         while True:
-            # quiescence: ninja blocked in ppoll = no new command started for a while and every
-            # released command is done
+            # quiescence: ninja sleeps in ppoll(), every live child of it is a command that has announced itself and has
+            # not been released, and every released command is gone.  Read from /proc, so that a slow machine only makes
+            # this loop longer; where /proc does not say, "nothing changed for a while" with a wide margin.
             stable_since = time.time()
             last = None
+            agree = 0
             while True:
                 if proc.poll() is not None:
                     break
                 st = self.started_files()
                 pending = [i for i in released if not os.path.exists(os.path.join(self.ctl, "done." + i))]
-                cur = (tuple(st), tuple(pending))
-                if cur != last or pending:
-                    last = cur
-                    stable_since = time.time()
-                elif time.time() - stable_since > 0.04:
-                    break
+                kids = live_children(proc.pid)
+                inpoll = blocked_in_poll(proc.pid)
+                if kids is not None and inpoll is not None:
+                    running_now = [i for i in st if i not in released]
+                    if inpoll and not pending and len(kids) == len(running_now):
+                        agree += 1
+                        if agree >= 3:
+                            break
+                    else:
+                        agree = 0
+                        # ninja can also be *busy* while it waits: with a readable jobserver pool that it watches but may
+                        # not use (failure budget used up) ppoll() returns at once, over and over.  Nothing having changed
+                        # for a good while then counts as well.
+                        cur = (tuple(st), tuple(pending), len(kids))
+                        if cur != last or pending or len(kids) != len(running_now):
+                            last = cur
+                            stable_since = time.time()
+                        elif time.time() - stable_since > 0.6:
+                            obs["busy_while_waiting"] = obs.get("busy_while_waiting", 0) + 1
+                            break
+                else:
+                    cur = (tuple(st), tuple(pending))
+                    if cur != last or pending:
+                        last = cur
+                        stable_since = time.time()
+                    elif time.time() - stable_since > 0.5:
+                        break
                 if time.time() > deadline:
                     proc.kill()
                     obs["timeout"] = True
@@ -203,9 +257,17 @@ class Real:
             running = [i for i in started if i not in released]
             obs["max_running"] = max(obs.get("max_running", 0), len(running))
             if not running:
-                # ninja is alive, nothing runs, nothing pending: it would wait forever
-                time.sleep(0.05)
-                if proc.poll() is None and not [i for i in self.started_files() if i not in released]:
+                # ninja is alive and asleep in ppoll(), it has no child, nothing is pending: nothing can wake it but a signal
+                # or the jobserver pool.  Confirmed over a second before it is called a hang.
+                t_h = time.time()
+                still = True
+                while time.time() - t_h < 1.0:
+                    time.sleep(0.02)
+                    if proc.poll() is not None or [i for i in self.started_files() if i not in released] \
+                            or live_children(proc.pid) or blocked_in_poll(proc.pid) is False:
+                        still = False
+                        break
+                if still and proc.poll() is None:
                     obs["hang"] = True
                     proc.kill()
                     break
